@@ -26,7 +26,10 @@ def build_seed(path: str) -> None:
     import datashard as ds
 
     t = ds.create_table(path, schema=tables.std_schema())
-    t.append_records(tables.rows([1, 2]))
+    with t.new_transaction() as tx:          # ONE manifest naming two data files: deleting one of them
+        tx.append_data(tables.rows([1]))     # makes the delete transaction REWRITE that manifest (a file the
+        tx.append_data(tables.rows([2]))     # collector must not take between the rewrite and the commit)
+        tx.commit()
     t.append_records(tables.rows([3]))
     # an old true orphan so that every collection has something to delete
     os.makedirs(os.path.join(path, "data"), exist_ok=True)
@@ -210,6 +213,100 @@ class Exec:
                     "gc_event": next((e for e in clog.events if e["actor"] == "G"), None)}
 
 
+def build_seed_s3(path: str) -> None:
+    import datashard as ds
+
+    t = ds.create_table(path, schema=tables.std_schema())
+    with t.new_transaction() as tx:
+        tx.append_data(tables.rows([1]))
+        tx.append_data(tables.rows([2]))
+        tx.commit()
+    t.append_records(tables.rows([3]))
+
+
+def s3_nested(tmpl: Template, txkind: str, idx: int, whole: bool = False) -> Dict[str, Any]:
+    """Object-store variant without the scheduler: the transaction stages its files inside the
+    collector's idx-th S3 request (after whatever the collector has read so far) and commits when
+    the collection is over.  Everything older is aged 2 h; the staged files are fresh, so only the
+    grace period (1 h) and the markers protect them.  Run under several process time zones: object
+    ages are computed from the store's UTC LastModified."""
+    import datashard as ds
+    from datashard.garbage_collector import GarbageCollector
+
+    inst = tmpl.clone()
+    with inst:
+        store = inst.store
+        pre = f"{inst.table_path}/"
+        store.put_object(Bucket="bkt", Key=pre + "data/orphan_old.parquet", Body=b"orphan")
+        for k in list(store.objects):
+            store.set_age(k[0], k[1], 7200)
+        t = ds.load_table(inst.table_path)
+        tg = ds.load_table(inst.table_path)
+        victim = tables.current_files(t)[0]
+        gc = GarbageCollector(tg.table_path, tg.metadata_manager, tg.file_manager)
+        st: Dict[str, Any] = {"i": -1, "busy": False, "tx": None, "at": None}
+
+        def stage() -> None:
+            tx = t.new_transaction().begin()
+            if txkind == "delete_append":
+                tx.delete_files([victim])
+            tx.append_data(tables.rows([101]))
+            if txkind == "multi":
+                tx.append_data(tables.rows([102]))
+            st["tx"] = tx
+            if whole:      # the whole transaction, commit included, happens inside this collector request
+                try:
+                    tx.commit()
+                    st["commit"] = "acked"
+                except Exception as e:  # noqa
+                    st["commit"] = f"raised {type(e).__name__}"
+
+        def before(req: Any) -> None:
+            if st["busy"]:
+                return
+            st["i"] += 1
+            if st["i"] == idx:
+                st["busy"] = True
+                st["at"] = req.brief()
+                try:
+                    stage()
+                finally:
+                    st["busy"] = False
+
+        store.before.append(before)
+        gc_out: Tuple[Any, ...]
+        try:
+            try:
+                gc_out = ("returned", gc.collect(GRACE_MS))
+            except Exception as e:  # noqa
+                gc_out = ("raised", type(e).__name__, str(e)[:160])
+        finally:
+            store.before.remove(before)
+        deleted = [r.key[len(pre):] for r in store.log if r.op == "DELETE" and r.key.startswith(pre)] if store.keep_log else []
+        if st["tx"] is None:
+            return {"reached": False, "nreq": st["i"] + 1}
+        viol: List[Tuple[str, str]] = []
+        try:
+            if not whole:
+                st["tx"].commit()
+                st["commit"] = "acked"
+        except Exception as e:  # noqa
+            st["commit"] = f"raised {type(e).__name__}"
+        if st["commit"] != "acked":
+            return {"reached": True, "at": st["at"], "viol": viol, "commit": st["commit"], "gc": gc_out, "deleted": deleted}
+        tv = reader.read_table(inst.blobs())
+        if tv.meta is None:
+            viol.append(("table-unreadable:s3", f"final table unreadable: {tv.error}"))
+        else:
+            bad = [sv for sv in tv.snapshots if sv.error]
+            if bad:
+                viol.append(("committed-file-deleted:s3-collector", f"snapshot {bad[0].id} unreadable after the commit: {bad[0].error}; "
+                             f"collector deletions: {deleted[:6]}"))
+            elif reader.canon_rows(tables.rows([101]))[0] not in tv.current_rows():
+                viol.append(("acked-rows-missing:s3", "the committed row is not in the final table"))
+        return {"reached": True, "at": st["at"], "viol": viol, "commit": "acked", "gc": gc_out, "deleted": deleted}
+
+
 class C06(Check):
     pid = "C06"
     level = "exploration"
@@ -219,10 +316,13 @@ class C06(Check):
             "commit_open/append/delete_append in quick; k=2 all in thorough); 1 collector x 2 transactions (one forcing "
             "the other to retry) under PCT/random. Everything a transaction writes before the collector's first storage "
             "call is aged 2 h (> grace). non-trivial = execution where the collector ran between the transaction's first "
-            "and last step and deleted >=1 file; distinct = gate-level trace")
+            "and last step and deleted >=1 file; distinct = gate-level trace. Object store: for every S3 request of a collection, "
+            "the transaction stages its files inside that request and commits there or after the run, under process time zones "
+            "{UTC, +9, -5, +5:45}")
     assumptions = [
         "files written after the collection started are left fresh (the property's proviso: grace > run duration)",
-        "local backend (the collector's logic is backend independent; S3 listing semantics are covered by C05/C20)",
+        "scheduler-driven cells use the local backend; the object-store cells (s3_nested) place the transaction's staging "
+        "inside each collector request instead of exploring schedules",
     ]
     require = {"executions_ok": 200, "gc_deleted_something": 100, "interleaved_executions": 100}
     worker_timeout_s = {"quick": 1500, "thorough": 7200}
@@ -242,6 +342,10 @@ class C06(Check):
             for kind in ["commit_open", "delete_append"]:
                 for sh in range(32):
                     yield {"mode": "dfs", "txs": [kind], "k": 3, "shard": sh, "nshards": 32, "max_runs": 4000}
+        for tz in ("UTC0", "JST-9", "EST5", "NPT-5:45"):
+            for kind in (["append", "delete_append"] if tier == "quick" else ["append", "multi", "delete_append"]):
+                for whole in (False, True):
+                    yield {"mode": "s3_nested", "txs": [kind], "tz": tz, "whole": whole}
         nrand = 40 if tier == "quick" else 500
         for i in range(nrand):
             rng = rng_for(seed, "c06r", i)
@@ -249,7 +353,40 @@ class C06(Check):
                    "seed": seed * 100000 + i, "runs": 6 if tier == "quick" else 12,
                    "age": rng.choice(["before_gc", "before_gc", "always"]) if False else "before_gc"}
 
+    def _s3_nested(self, case: Any, res: CaseResult) -> None:
+        old = os.environ.get("TZ")
+        os.environ["TZ"] = case["tz"]
+        time.tzset()
+        try:
+            with Scratch("c06s") as d:
+                tmpl = Template("s3", str(d))
+                tmpl.build(build_seed_s3)
+                only = case.get("_replay_schedule")
+                for idx in ([only] if only is not None else range(400)):
+                    r = s3_nested(tmpl, case["txs"][0], idx, case.get("whole", False))
+                    if not r["reached"]:
+                        break
+                    res.evals += 1
+                    res.count("s3_nested_executions")
+                    if r["commit"] == "acked":
+                        res.count("executions_ok")
+                    if r["deleted"]:
+                        res.count("gc_deleted_something")
+                        res.count("interleaved_executions")
+                        res.key(["s3", case["txs"][0], case["tz"], case.get("whole", False), idx])
+                    for sig, msg in r["viol"][:1]:
+                        res.violation(sig, f"TZ={case['tz']} {case['txs'][0]} {'staged and committed' if case.get('whole') else 'staged'} inside collector request #{idx} ({r['at']}): {msg}",
+                                      {"case": case, "schedule": idx, "gc": r["gc"], "deleted": r["deleted"]})
+        finally:
+            if old is None:
+                os.environ.pop("TZ", None)
+            else:
+                os.environ["TZ"] = old
+            time.tzset()
+
     def run_case(self, case: Any, res: CaseResult, tier: str) -> None:
+        if case["mode"] == "s3_nested":
+            return self._s3_nested(case, res)
         ip = Interposer().install()
         try:
             with Scratch("c06") as d:
